@@ -5,6 +5,7 @@ import (
 	"fmt"
 	"os"
 	"sort"
+	"strconv"
 	"strings"
 
 	"github.com/bilibili/gengine/engine"
@@ -86,6 +87,8 @@ type reqRec struct {
 	resCopy map[string]interface{}
 	respID  int64
 	probe   bool
+	// children of the client thread with spawn index in [spawn0, spawn1) were started by this request
+	spawn0, spawn1 int
 }
 
 type poolState struct {
@@ -116,6 +119,37 @@ func (st *poolState) owner() *reqRec {
 	}
 }
 
+// lineage finds the request whose pool call started the calling goroutine (nil: the client thread
+// itself, or a thread no request started).
+func (st *poolState) lineage() *reqRec {
+	p := vsched.ThreadPath()
+	for i := len(st.recs) - 1; i >= 0; i-- {
+		r := st.recs[i]
+		if !strings.HasPrefix(p, r.client+".") {
+			continue
+		}
+		rest := p[len(r.client)+1:]
+		if k := strings.Index(rest, "."); k >= 0 {
+			rest = rest[:k]
+		}
+		idx, err := strconv.Atoi(rest)
+		if err != nil {
+			continue
+		}
+		if idx >= r.spawn0 && (r.spawn1 < 0 || idx < r.spawn1) {
+			return r
+		}
+	}
+	return nil
+}
+
+// late records a rule that is still running although the pool call that started it has returned.
+func (st *poolState) late(what string) {
+	if r := st.lineage(); r != nil && r.done {
+		st.note("late|%s was called by a rule of request %d after that request's pool call had returned (the instance may already serve another request)", what, r.id)
+	}
+}
+
 func (st *poolState) note(format string, a ...interface{}) {
 	if !vsched.Aborted() {
 		st.notes = append(st.notes, fmt.Sprintf(format, a...))
@@ -133,7 +167,7 @@ func poolApis() map[string]interface{} {
 		"step": func(id, mode int64) { activePool.apis()["step"].(func(int64, int64))(id, mode) },
 		"seen": func(id, r int64) { activePool.apis()["seen"].(func(int64, int64))(id, r) },
 		"opt":  func(id, v int64) { activePool.apis()["opt"].(func(int64, int64))(id, v) },
-		"cf":   func(x int, y float32) {},
+		"cf":   func(x int, y float32) { activePool.apis()["cf"].(func())() },
 	}
 }
 
@@ -148,6 +182,7 @@ func (st *poolState) apis() map[string]interface{} {
 func (st *poolState) makeApis() map[string]interface{} {
 	l := st.log
 	check := func(what string, id int64) *reqRec {
+		st.late(what)
 		o := st.owner()
 		if o == nil {
 			st.note("isolation|%s(%d) called from a thread that serves no request", what, id)
@@ -159,6 +194,10 @@ func (st *poolState) makeApis() map[string]interface{} {
 		return o
 	}
 	return map[string]interface{}{
+		"cf": func() {
+			vsched.Obs()
+			st.late("cf")
+		},
 		"tin": func(id int64) {
 			l.Ev("in", id)
 			check("tin", id)
@@ -220,7 +259,7 @@ func (st *poolState) makeApis() map[string]interface{} {
 }
 
 func (st *poolState) issue(gp *engine.GenginePool, m *gx.PoolMethod, id int64, spec reqSpec, probe bool) *reqRec {
-	rec := &reqRec{id: id, spec: spec, client: vsched.ThreadPath(), probe: probe}
+	rec := &reqRec{id: id, spec: spec, client: vsched.ThreadPath(), probe: probe, spawn0: vsched.SpawnCount(), spawn1: -1}
 	st.recs = append(st.recs, rec)
 	st.cur[rec.client] = rec
 	data := map[string]interface{}{}
@@ -250,6 +289,7 @@ func (st *poolState) issue(gp *engine.GenginePool, m *gx.PoolMethod, id int64, s
 	rec.err, rec.res, rec.pan = gx.PoolCallGuarded(m, gp, data, p)
 	rec.resCopy = gx.CopyResult(rec.res)
 	rec.respID = resp.Id
+	rec.spawn1 = vsched.SpawnCount()
 	rec.done = true
 	delete(st.cur, rec.client)
 	st.log.Ev("ret", id)
@@ -379,6 +419,12 @@ func poolOracle(cfg poolCfg, m *gx.PoolMethod, st *poolState, ex *vsched.Exec) (
 		}
 		if !r.done {
 			bad(m.Name+":request-incomplete", fmt.Sprintf("request %d never returned", r.id))
+			return
+		}
+	}
+	for _, n := range st.notes {
+		if strings.HasPrefix(n, "late|") {
+			bad(m.Name+":rule-running-after-return", n[5:])
 			return
 		}
 	}
